@@ -46,4 +46,10 @@ fn('simulator.Simulator.get_arm_stats', props='C16',
    ensures=['[C16,armstats.keys] keys(result) == self.arms',
             '[C16,armstats.count] forall_arm(lambda a: implies(mem(self.arms, a), val(result, a, "count") == cnt(decisions, a)))',
             '[C16,armstats.sum] forall_arm(lambda a: implies(mem(self.arms, a), val(result, a, "sum") == '
-            '(ssum(sel(rewards, decisions, a)) if cnt(decisions, a) > 0 else 0)))'])
+            '(ssum(sel(rewards, decisions, a)) if cnt(decisions, a) > 0 else 0)))',
+            '[C16,armstats.min] forall_arm(lambda a: implies(mem(self.arms, a), val(result, a, "min") == '
+            '(smin(sel(rewards, decisions, a)) if cnt(decisions, a) > 0 else 0)))',
+            '[C16,armstats.max] forall_arm(lambda a: implies(mem(self.arms, a), val(result, a, "max") == '
+            '(smax(sel(rewards, decisions, a)) if cnt(decisions, a) > 0 else 0)))',
+            '[C16,armstats.none] forall_arm(lambda a: implies(mem(self.arms, a) and cnt(decisions, a) == 0, '
+            'val(result, a, "mean") == 0 and val(result, a, "std") == 0))'])
